@@ -88,6 +88,15 @@ def fit_case(rep, spec, index):
     unchanged("fit(include_zero=True)")
     f1b = fit(copy_, n=min(n_max, 1), m=0, include_zero=False, component_index=comp_index)
     rep.require("repeating a fit on equal data gives identical coefficients", coeffs(f1) == coeffs(f1b), case, {"first": str(coeffs(f1))[:200], "second": str(coeffs(f1b))[:200]})
+    # the caller perturbs a function it got back (sensitivity study): a later identical request must not hand the spoilt object out
+    spoil = fit(data, n=min(n_max, 1), m=0, include_zero=False, component_index=comp_index)
+    spoil.alpha = spoil.alpha * 3.0 + 1.0
+    try:
+        spoil.a[0] = 123.0
+    except (IndexError, TypeError):
+        pass
+    f1c = fit(data, n=min(n_max, 1), m=0, include_zero=False, component_index=comp_index)
+    rep.require("tampering with a returned fit does not affect later fits", coeffs(f1c) == coeffs(f1b), case, {"expected": str(coeffs(f1b))[:200], "got": str(coeffs(f1c))[:200]})
     # record the inner candidates of the search
     inner = []
     orig_fit = opt.fit
@@ -186,6 +195,11 @@ def vle_case(rep, spec, name):
             worst = {"method": alg, "single_error": e, "best_error": e_best}
     rep.require("fit_vle(method=None) error <= every single method's error", worst is None, case, worst)
     rep.require("fit_vle never modifies the VLE points", fp_vle(data) == fp0, case)
+    spoil = fit_vle(data, method="Powell")
+    ref_powell = fingerprint.deep(arr(spoil))
+    spoil.alpha_21 = spoil.alpha_21 + 25.0
+    spoil.beta_12 = spoil.beta_12 * 1.5
+    rep.require("tampering with returned UNIQUAC parameters does not affect later fits", fingerprint.deep(arr(fit_vle(data, method="Powell"))) == ref_powell, case)
     again = fit_vle(VLEPoints.from_csv(path))
     rep.require("repeating fit_vle on equal data gives identical parameters", fingerprint.deep(arr(best)) == fingerprint.deep(arr(again)), case,
                 {"first": arr(best), "second": arr(again)})
